@@ -14,15 +14,39 @@ RULE = ("indentation strings of 0..8 spaces/tabs; partial bodies built from line
 DEFINITE_FLOOR = 0.8
 ASSUMPTIONS = ["a nested partial that is not alone on its line is excluded from the random stream (known finding F13) and runs as a listed witness",
                "data strings with a lone CR are outside the quantifier (F11: whether a lone CR is a line break is not decided by the property)"]
-DATA = {"s": "one", "m": "l1\nl2", "m3": "a\nb\nc\n", "e": "", "t": True, "f": False, "nl": "\n", "crlf": "x\r\ny",
+DATA = {"one": [1], "s": "one", "m": "l1\nl2", "m3": "a\nb\nc\n", "e": "", "t": True, "f": False, "nl": "\n", "crlf": "x\r\ny",
         "ys": ["y1", "y2"], "o": {"k": "v\nw"}, "lead": "\nafter", "sp": "  "}
+
+
+def free_pieces(rng, depth):
+    """a free-form run of text / expressions / blocks that may start and end anywhere on a line (blocks that open
+    mid-line, bodies that end a line, helpers that write nothing as the last element of a body, …)"""
+    out = []
+    for _ in range(rng.range(1, 4)):
+        k = rng.weighted([("t", 4), ("e", 4), ("nl", 3), ("blk", 3 if depth > 0 else 0), ("empty", 2)])
+        if k == "t":
+            out.append(rng.pick(["a", "b ", " c", "x<y"]))
+        elif k == "e":
+            out.append("{{{" + rng.pick(["s", "m", "e", "m3", "nl", "lead"]) + "}}}")
+        elif k == "nl":
+            out.append("\n")
+        elif k == "empty":
+            out.append(rng.pick(["{{#if f}}x{{/if}}", "{{{e}}}", "{{#each e}}y{{/each}}", "{{#unless t}}z{{/unless}}"]))
+        else:
+            inner = free_pieces(rng, depth - 1)
+            out.append(rng.pick(["{{#if t}}", "{{#unless f}}", "{{#with o}}", "{{#each one}}"]) + inner)
+            out[-1] += {"{{#if t}}": "{{/if}}", "{{#unless f}}": "{{/unless}}", "{{#with o}}": "{{/with}}", "{{#each one}}": "{{/each}}"}[out[-1][:out[-1].index("}}") + 2]]
+    return "".join(out)
 
 
 def body_lines(rng, level, names):
     lines = []
     for _ in range(rng.range(1, 5)):
         k = rng.weighted([("text", 4), ("expr", 5), ("mixed", 3), ("ifinline", 2), ("ifblock", 2), ("each", 2),
-                          ("nested", 3 if level > 0 and names else 0), ("blank", 1), ("comment", 1)])
+                          ("nested", 3 if level > 0 and names else 0), ("blank", 1), ("comment", 1), ("free", 4)])
+        if k == "free":
+            lines.append("q" + free_pieces(rng, 2) + "r\n")
+            continue
         if k == "text":
             lines.append(rng.pick(["text", "  indented", "a b c", "\ttab", "x<y"]) + "\n")
         elif k == "expr":
@@ -82,7 +106,8 @@ def gen_case(rng, i):
     else:
         ops.append({"op": "render", "reg": 0, "api": "render", "name": "p", "data": enc(DATA)})
     uses_root = False
-    return {"kind": "session", "regs": [cfg], "ops": ops}, {"W": W, "where": where, "n": n, "pi": pi, "p": p}
+    return {"kind": "session", "regs": [cfg], "ops": ops}, {"W": W, "where": where, "n": n, "pi": pi, "p": p,
+                                                             "glue": not (r1.endswith("\n") and r2.endswith("\n"))}
 
 
 def generate(rng, n, tier="quick"):
@@ -102,7 +127,8 @@ def generate(rng, n, tier="quick"):
 
 def indent_lines(text, W, first_only=False):
     if text == "":
-        return ""
+        # with prevent_indent W is literal text in front of the tag: it stays when p writes nothing
+        return W if first_only else ""
     parts = text.split("\n")
     out = []
     for k, line in enumerate(parts):
@@ -110,7 +136,7 @@ def indent_lines(text, W, first_only=False):
         if last_piece and line == "":
             break
         pre = W if (k == 0 or not first_only) else ""
-        if line.strip(" \t\r") == "":
+        if line.strip(" \t\r") == "" and not (first_only and last_piece):
             pre = ""          # whitespace-only lines may or may not carry W
         out.append(pre + line + ("" if last_piece else "\n"))
     return "".join(out)
@@ -120,6 +146,22 @@ def norm(text):
     """whitespace-only lines may or may not carry W"""
     lines = text.split("\n")
     return "\n".join(("" if l.strip(" \t\r") == "" else l) for l in lines)
+
+
+def medium_eq(got, exp):
+    """same number of lines; every non-blank line has the same leading whitespace and the same non-whitespace content
+    (what the property states; whitespace inside a line is left open).  Used when a nested partial leaves its last line
+    unterminated, so that the next nested call's own indentation lands in the middle of a line."""
+    g, e = got.split("\n"), exp.split("\n")
+    if len(g) != len(e):
+        return False
+    for a, b in zip(g, e):
+        if a.strip(" \t\r") == "" and b.strip(" \t\r") == "":
+            continue
+        la, lb = a[:len(a) - len(a.lstrip(" \t"))], b[:len(b) - len(b.lstrip(" \t"))]
+        if la != lb or "".join(a.split()) != "".join(b.split()):
+            return False
+    return True
 
 
 def oracle(case, meta, impl):
@@ -142,7 +184,7 @@ def oracle(case, meta, impl):
         exp += body
     exp += "b"
     got = main["out"]
-    if norm(got) == norm(exp):
+    if norm(got) == norm(exp) or (meta.get("glue") and medium_eq(got, exp)):
         # content and line count are unchanged by construction of the comparison
         return []
     return ["indentation: W=%r partial alone %r → expected %r got %r" % (W, [a["out"] for a in alone], exp, got)]
